@@ -183,9 +183,25 @@ class ExternalVariableCollector(NodeVisitor):
 
     def visit_ClassDef(self, node):
         # The class statement binds its name in the function's scope
-        self.provenance[node.name] = "body"
+        self.provenance.setdefault(node.name, "body")
         self.assigned.add(node.name)
-        self.generic_visit(node)
+        for expr in [
+            *node.decorator_list,
+            *node.bases,
+            *[kw.value for kw in node.keywords],
+        ]:
+            self.visit(expr)
+        # The class body is a scope of its own: the names it binds are not
+        # variables of the function, the other names it reads may be.
+        loads, stores = set(), set()
+        for stmt in node.body:
+            for sub in ast.walk(stmt):
+                if isinstance(sub, ast.Name):
+                    if isinstance(sub.ctx, ast.Load):
+                        loads.add(sub.id)
+                    else:
+                        stores.add(sub.id)
+        self.used |= loads - stores
 
     def visit_Name(self, node):
         if isinstance(node.ctx, ast.Load):
